@@ -417,7 +417,10 @@ func (g *rgen) items(h *hostSheet, origin string, n int, allowMedia, allowImport
 		}
 	}
 	// the sheet imports one of its files once more (other spelling, other syntax, maybe other
-	// media), after the other imports or between them: the file contributes a second time there
+	// media), after the other imports or between them: the file contributes a second time there.
+	// Two times in three the second @import comes last and, when the file has a style rule, a
+	// rival sheet (same selector, same properties and importance, new values) is imported between
+	// the two: the copy of the second @import is what beats the rival.
 	if allowImport && len(h.imports) > 0 && r.Intn(3) == 0 {
 		again := pick(r, h.imports)
 		again.Var, again.Sp = r.Intn(4), g.spelling()
@@ -427,12 +430,41 @@ func (g *rgen) items(h *hostSheet, origin string, n int, allowMedia, allowImport
 				again.Media = pick(r, mediaLists)
 			}
 		}
-		at := len(h.imports)
 		if r.Intn(3) == 0 {
-			at = r.Intn(len(h.imports) + 1)
+			at := r.Intn(len(h.imports) + 1)
+			h.imports = append(h.imports[:at:at], append([]Item{again}, h.imports[at:]...)...)
+		} else {
+			if rival, ok := g.rival(again.File); ok {
+				h.imports = append(h.imports, Item{Kind: "import", File: rival, Var: r.Intn(4), Sp: g.spelling()})
+			}
+			h.imports = append(h.imports, again)
 		}
-		h.imports = append(h.imports[:at:at], append([]Item{again}, h.imports[at:]...)...)
 	}
+}
+
+// rival builds a new file with one rule that competes, declaration for declaration and with equal
+// weight, with a style rule of the given file.
+func (g *rgen) rival(file string) (string, bool) {
+	var rules []Item
+	for _, it := range g.b.doc.Files[file].Items {
+		if it.Kind == "rule" && !it.BadSel && len(it.Decls) > 0 {
+			rules = append(rules, it)
+		}
+	}
+	if len(rules) == 0 {
+		return "", false
+	}
+	it := pick(g.r, rules)
+	rule := Item{Kind: "rule", Sel: it.Sel, PE: it.PE}
+	for _, d := range it.Decls {
+		rule.Decls = append(rule.Decls, g.b.decl(d.Prop, d.Imp))
+	}
+	f := g.b.file(&Sheet{Items: []Item{rule}})
+	if g.fileDepth == nil {
+		g.fileDepth = map[string]int{}
+	}
+	g.fileDepth[f] = 1
+	return f, true
 }
 
 // spelling draws the URL spelling of an import (mostly the plain relative one).
